@@ -34,6 +34,9 @@ def run_one(name, text, keep=True):
             elif l.startswith('FRAMES'):
                 w = l.split()
                 res['frames'], res['left'] = int(w[1]), int(w[3])
+            elif l.startswith('PREMISE spawns_fresh'):
+                kv = dict(x.split('=') for x in l.split()[2:])
+                res['premise_fresh'] = (int(kv['holds']), int(kv['fails']), int(kv['duplicate_states']))
         # at a quiescent end the model must not hold undelivered messages (promotion hand-overs
         # legitimately strand messages towards peers that left: not counted there)
         tail = [l for l in out.split('\n') if l in ('QUIESCENT', 'NOTQUIESCENT')]
